@@ -365,12 +365,18 @@ func apiCall(limit time.Duration, busy func() bool, f func()) (o callOutcome, h 
 		case o = <-ch:
 			return o, nil
 		case <-tick.C:
+			// the call may have completed at the same instant
+			select {
+			case o = <-ch:
+				return o, nil
+			default:
+			}
 			n++
 			if n < 2 {
 				continue
 			}
 			dump := allStacks()
-			if (busy == nil || !busy()) && quiescentDump(dump) {
+			if (busy == nil || !busy()) && quiescentDump(dump) && apiFrame(dump) != "?" {
 				quiet++
 			} else {
 				quiet = 0
@@ -379,6 +385,11 @@ func apiCall(limit time.Duration, busy func() bool, f func()) (o callOutcome, h 
 				return callOutcome{timedOut: true}, &hangInfo{Deadlock: true, APIFrame: apiFrame(dump), Dump: dump}
 			}
 		case <-deadline:
+			select {
+			case o = <-ch:
+				return o, nil
+			default:
+			}
 			dump := allStacks()
 			return callOutcome{timedOut: true}, &hangInfo{Deadlock: false, APIFrame: apiFrame(dump), Dump: dump}
 		}
